@@ -12,6 +12,7 @@ import ast
 from typing import Dict, List, Optional, Tuple
 
 from ..model import FuncInfo, ClassInfo, iter_own_nodes, strip_opt
+from .shared import single_instance_gate
 from ..absval import Abs
 from ..exceptions import ExcAnalysis
 from .shared import install_find_hooks
@@ -90,9 +91,12 @@ def check(ctx):
             elif ot in ('Formal', 'Signature'):
                 good = nscope is not None and stxt.endswith('.fqn') and \
                     tname(abs_.type_at(fn, nscope.value, c)) == 'Interface'
-                same_itf = good and _same_interface(ctx, abs_, ex, fn, c, owner, nscope.value)
-                ok = good and same_itf
-                why = ('parameter / reply type resolved from the declaring interface\'s own scope' if ok else
+                same_itf = _same_interface(ctx, abs_, ex, fn, c, owner, nscope.value) if good else False
+                ok = (good and same_itf) if same_itf is not None else None
+                if ok is None:
+                    why = (f'the origin of the event that declares `{txt}` could not be traced back to an interface: '
+                           f'not modelled')
+                why = why if ok is None else ('parameter / reply type resolved from the declaring interface\'s own scope' if ok else
                        f'type `{txt}` is resolved from `{stxt}`; the referring scope is the fqn of the interface that '
                        f'declares the event')
             else:
@@ -143,6 +147,9 @@ def check(ctx):
                     _kind(ctx, abs_, ex, fn, p)
             else:
                 run.holds('C07.single', fn.module.name, fn.qualname, n, f'FindResult.{n.attr}', node=n, nontrivial=False)
+    # the gate itself: only a complete result of exactly one declaration (of the hinted kind) gets through
+    for what, ok, msg, node in single_instance_gate(ctx):
+        run.add('C07.single', 'dznpy.ast_view', 'FindResult.get_single_instance', what, ok, msg, node=node)
     run.floor('C07.single', 8)
     run.floor('C07.kind', 8)
 
@@ -160,31 +167,40 @@ def check(ctx):
             'find_fqn does not (only) compare whole fully-qualified names with ==')
 
 
-def _same_interface(ctx, abs_, ex, fn: FuncInfo, call: ast.Call, owner: ast.expr, itf_expr: ast.expr) -> bool:
+def _same_interface(ctx, abs_, ex, fn: FuncInfo, call: ast.Call, owner: ast.expr, itf_expr: ast.expr) -> Optional[bool]:
     """The formal / signature whose type is looked up belongs to an event of the interface whose fqn is the scope:
     the loop that yields the formal iterates `<E>.signature.formals.elements` with E an event obtained from
-    `<itf_expr>.events.elements` (or E is the claim / release event of a fixture checked against that interface)."""
+    `<itf_expr>.events.elements` (or E is the claim / release event of a fixture checked against that interface).
+    True / False (the events of another object) / None (the origin of the event could not be traced)."""
     prog = ctx.prog
     want = ast.dump(ex.normalise(fn, itf_expr))
     # walk back from the owner: Name bound by a for-loop over <event>.signature.formals.elements
     e = owner
     hops = 0
-    while hops < 8:
+    cur_fn = fn
+    subst: Dict[str, ast.expr] = {}          # parameters of an entered helper -> argument expressions of the caller
+    anchor: ast.AST = call
+    while hops < 16:
         hops += 1
-        e = ex.normalise(fn, e)
-        if isinstance(e, ast.Name) and abs_._single_def(fn, e.id) is not None:
-            e = abs_._single_def(fn, e.id)
+        if cur_fn is fn:
+            e = ex.normalise(fn, e)
+        if isinstance(e, ast.Name) and cur_fn is not fn and e.id in subst:
+            e = subst[e.id]
+            cur_fn, subst, anchor = fn, {}, call
+            continue
+        if isinstance(e, ast.Name) and abs_._single_def(cur_fn, e.id) is not None:
+            e = abs_._single_def(cur_fn, e.id)
             continue
         if isinstance(e, ast.Name):
-            b = abs_._binder(_find_name_use(fn, e.id, call) or e) if prog.parent(e) is not None else None
+            b = abs_._binder(_find_name_use(cur_fn, e.id, anchor) or e) if prog.parent(e) is not None else None
             if b is None:
-                b = _loop_binding(fn, e.id, call, prog)
+                b = _loop_binding(cur_fn, e.id, anchor, prog)
             if b is None:
-                return False
+                return None
             e = b.iter
             continue
         txt = ast.unparse(e)
-        if isinstance(e, ast.ListComp) and len(e.generators) == 1:
+        if isinstance(e, (ast.ListComp, ast.GeneratorExp, ast.DictComp)) and len(e.generators) == 1:
             e = e.generators[0].iter
             continue
         if txt.endswith('.elements'):
@@ -194,15 +210,52 @@ def _same_interface(ctx, abs_, ex, fn: FuncInfo, call: ast.Call, owner: ast.expr
             e = e.value
             continue
         if isinstance(e, ast.Attribute) and e.attr == 'events':
-            return ast.dump(ex.normalise(fn, e.value)) == want
+            base = e.value
+            if cur_fn is not fn:
+                # express the callee's expression in terms of the caller's arguments
+                base = _substitute(base, subst)
+                return ast.dump(ex.normalise(fn, base)) == want
+            return ast.dump(ex.normalise(fn, base)) == want
         if isinstance(e, ast.Attribute) and e.attr in ('claim_event', 'release_event'):
             # fixture events were looked up in `itf.events` by check_multiclient_cfg and belong to dzn.interface
             return True
         if isinstance(e, ast.Subscript):
             e = e.value
             continue
-        return False
-    return False
+        if isinstance(e, ast.Call):
+            fname = e.func.id if isinstance(e.func, ast.Name) else None
+            # element-preserving wrappers: the elements come from the first argument / the receiver
+            if fname in ('list', 'tuple', 'sorted', 'reversed', 'iter', 'groupby') and e.args:
+                e = e.args[0]
+                continue
+            if fname == 'filter' and len(e.args) == 2:
+                e = e.args[1]
+                continue
+            if isinstance(e.func, ast.Attribute) and e.func.attr in ('get', 'values', 'copy') :
+                e = e.func.value
+                continue
+            callee = prog.resolve_expr_symbol(cur_fn.module, e.func) if isinstance(e.func, (ast.Name, ast.Attribute)) else None
+            if isinstance(callee, FuncInfo) and cur_fn is fn:
+                rets = [r for r in iter_own_nodes(callee.node) if isinstance(r, ast.Return) and r.value is not None]
+                if len(rets) != 1:
+                    return None
+                params = [a.arg for a in callee.params()]
+                subst = {p_: a for p_, a in zip(params, e.args)}
+                subst.update({k.arg: k.value for k in e.keywords if k.arg})
+                cur_fn, anchor = callee, rets[0]
+                e = rets[0].value
+                continue
+            return None
+        return None
+    return None
+
+
+def _substitute(e: ast.expr, subst: Dict[str, ast.expr]) -> ast.expr:
+    class T(ast.NodeTransformer):
+        def visit_Name(self, node):
+            return subst.get(node.id, node)
+    import copy
+    return T().visit(copy.deepcopy(e))
 
 
 def _find_name_use(fn: FuncInfo, name: str, within: ast.AST) -> Optional[ast.Name]:
@@ -332,8 +385,24 @@ def _spelling(ctx, abs_, ex):
         if isinstance(c, ast.Call) and getattr(c.func, 'id', '') == 'MultiClientPortCfgFixture':
             kw = {k.arg: k.value for k in c.keywords}
             r = kw.get('claim_granting_reply')
-            ok = r is not None and isinstance(r, ast.BinOp) and ast.unparse(r.left).endswith('.fqn') and \
-                strip_opt(abs_.type_at(cmc, r.left.value, c)) == ('cls', 'dznpy.ast.Enum')
+
+            def enum_fqn(e) -> bool:
+                return isinstance(e, ast.Attribute) and e.attr == 'fqn' and \
+                    strip_opt(abs_.type_at(cmc, e.value, c)) == ('cls', 'dznpy.ast.Enum')
+
+            ok = False
+            if isinstance(r, ast.Name):
+                # a local: `x = <enum>.fqn + value`, or `x = <enum>.fqn` followed by `x += value`
+                defs = [n_ for n_ in iter_own_nodes(cmc.node) if isinstance(n_, (ast.Assign, ast.AugAssign)) and any(
+                    isinstance(t, ast.Name) and t.id == r.id for t in (n_.targets if isinstance(n_, ast.Assign) else [n_.target]))]
+                asg = [d for d in defs if isinstance(d, ast.Assign)]
+                aug = [d for d in defs if isinstance(d, ast.AugAssign) and isinstance(d.op, ast.Add)]
+                if len(asg) == 1 and len(defs) == 1 + len(aug):
+                    v = asg[0].value
+                    ok = (isinstance(v, ast.BinOp) and isinstance(v.op, ast.Add) and enum_fqn(v.left) and not aug) or \
+                         (enum_fqn(v) and len(aug) == 1)
+            elif isinstance(r, ast.BinOp) and isinstance(r.op, ast.Add):
+                ok = enum_fqn(r.left)
             n += 1
             run.add('C07.spelling', cmc.module.name, cmc.qualname, c, ok,
                     'granting reply = fqn of the resolved enum + configured value' if ok else
